@@ -122,3 +122,120 @@ package round
 //@   loop 2 invariant -1 <= $idx && $idx < len(pruneRounds)
 //@   loop 2 invariant forall k in 0..$idx+1 :: !(pruneRounds[k] in s.items)
 //@   loop 2 invariant forall r int64 :: r in s.items ==> r > round || (exists k in $idx+1..len(pruneRounds) :: pruneRounds[k] == r)
+
+// ---------------------------------------------------------------- round state (C37)
+
+//@ func (*Round).setPhase
+//@   prop C37
+//@   requires r != nil
+//@   ensures r.phase >= old(r.phase)
+//@   ensures r.phase == old(r.phase) || r.phase == state
+//@   ensures state > old(r.phase) ==> r.phase == state
+//@   modifies r.phase
+
+//@ func (*Round).Restart
+//@   prop C37
+//@   requires r != nil && held(r.mutex) == 0 && rheld(r.mutex) == 0
+//@   ensures result != nil <==> old(r.phase) >= Share
+//@   ensures result != nil ==> unchanged(r.phase, r.Block, r.shares, r.notarizedBlocks, r.proposedBlocks, r.RandomSeed)
+//@   ensures result == nil ==> r.phase == ShareVRF && r.Block == nil && len(r.shares) == 0 && len(r.notarizedBlocks) == 0
+//@   lock-balanced r.mutex
+
+//@ func (*Round).getVRFShares
+//@   prop C37
+//@   trusted
+//@   requires r != nil
+//@   ensures fresh(result) && len(result) == len(r.shares)
+//@   modifies nothing
+
+//@ func (*Round).AddVRFShare
+//@   prop C37, C33
+//@   requires r != nil && share != nil && share.party != nil && r.shares != nil && held(r.mutex) == 0 && rheld(r.mutex) == 0
+//@   ensures r.phase >= old(r.phase)
+//@   ensures result <==> old(len(r.shares)) < threshold && !old(share.party.ID in r.shares)
+//@   ensures result ==> len(r.shares) == old(len(r.shares)) + 1 && r.shares[share.party.ID] == share
+//@   ensures !result ==> len(r.shares) == old(len(r.shares))
+//@   ensures forall k string :: k != share.party.ID ==> ((k in r.shares) == old(k in r.shares)) && r.shares[k] == old(r.shares[k])
+//@   ensures old(len(r.shares)) <= threshold ==> len(r.shares) <= threshold
+//@   lock-balanced r.mutex
+
+//@ func (*Round).VRFShareExist
+//@   prop C37
+//@   requires r != nil && share != nil && share.party != nil && held(r.mutex) == 0 && rheld(r.mutex) == 0
+//@   ensures result <==> share.party.ID in r.shares
+//@   lock-balanced r.mutex
+
+//@ func (*Round).SetFinalizing
+//@   prop C37
+//@   requires r != nil && held(r.mutex) == 0 && rheld(r.mutex) == 0
+//@   ensures result <==> old(r.finalizingState) != RoundStateFinalized && old(r.finalizingState) != RoundStateFinalizing && r.Number != 0
+//@   ensures result ==> r.finalizingState == RoundStateFinalizing
+//@   ensures !result ==> r.finalizingState == old(r.finalizingState)
+//@   lock-balanced r.mutex
+
+//@ func (*Round).SetFinalized
+//@   prop C37
+//@   requires r != nil && held(r.mutex) == 0 && rheld(r.mutex) == 0
+//@   ensures r.finalizingState == RoundStateFinalized
+//@   lock-balanced r.mutex
+
+//@ func (*Round).ResetFinalizingStateIfNotFinalized
+//@   prop C37
+//@   requires r != nil && held(r.mutex) == 0 && rheld(r.mutex) == 0
+//@   ensures old(r.finalizingState) == RoundStateFinalized ==> r.finalizingState == RoundStateFinalized
+//@   ensures old(r.finalizingState) != RoundStateFinalized && r.Number != 0 ==> r.finalizingState == NotFinalized
+//@   lock-balanced r.mutex
+
+//@ func (*Round).IsFinalized
+//@   prop C37
+//@   requires r != nil && held(r.mutex) == 0
+//@   ensures result <==> r.finalizingState == RoundStateFinalized || r.Number == 0
+//@   lock-balanced r.mutex
+
+//@ func (*Round).IsFinalizing
+//@   prop C37
+//@   requires r != nil && held(r.mutex) == 0
+//@   ensures result <==> r.finalizingState == RoundStateFinalizing
+//@   lock-balanced r.mutex
+
+//@ func (*timeoutCounter).SetTimeoutCount
+//@   prop C37
+//@   requires tc != nil && held(tc.mutex) == 0 && rheld(tc.mutex) == 0
+//@   ensures tc.count >= old(tc.count)
+//@   ensures set <==> count > old(tc.count)
+//@   ensures set ==> tc.count == count
+//@   ensures !set ==> tc.count == old(tc.count)
+//@   lock-balanced tc.mutex
+
+//@ func (*timeoutCounter).GetTimeoutCount
+//@   prop C37
+//@   requires tc != nil && held(tc.mutex) == 0 && rheld(tc.mutex) == 0
+//@   ensures count == tc.count
+//@   lock-balanced tc.mutex
+
+//@ func (*timeoutCounter).AddTimeoutVote
+//@   prop C37
+//@   requires tc != nil && held(tc.mutex) == 0 && rheld(tc.mutex) == 0
+//@   ensures tc.count == old(tc.count) && tc.votes[id] == num
+//@   lock-balanced tc.mutex
+
+//@ func (*timeoutCounter).rankTimeoutCounters
+//@   prop C37
+//@   trusted
+//@   modifies tc.prrs, tc.perm
+
+//@ func (*timeoutCounter).checkCap
+//@   prop C37
+//@   requires tc != nil
+//@   ensures tc.count <= old(tc.count)
+//@   modifies tc.count
+
+// "its timeout count never decreases": IncrementTimeoutCount ends with checkCap, which lowers
+// the count to the configured cap when an earlier SetTimeoutCount raised it above the cap.
+//@ func (*timeoutCounter).IncrementTimeoutCount
+//@   prop C37
+//@   requires tc != nil && held(tc.mutex) == 0 && rheld(tc.mutex) == 0
+//@   ensures[monotone] tc.count >= old(tc.count)
+//@   ensures prrs == 0 ==> tc.count == old(tc.count)
+//@   lock-balanced tc.mutex
+//@   loop 1 invariant tc.count >= old(tc.count) && held(tc.mutex) == 1 && rheld(tc.mutex) == 0 && from == old(tc.count)
